@@ -259,6 +259,13 @@ static void *client_thread(void *arg) {
                          vm_error_string(result));
             }
             vmd_msg_send_error(fd, errbuf);
+        } else {
+            /* Same rule as standalone nano_vm: an int result of main is the exit status
+             * (low 8 bits, which is what a process exit status keeps) */
+            NanoValue main_result = vm_get_result(&vm);
+            if (main_result.tag == TAG_INT) {
+                exit_code = (int32_t)((int)main_result.as.i64 & 0xFF);
+            }
         }
 
         vmd_msg_send_exit(fd, exit_code);
